@@ -53,6 +53,7 @@ let runners : (string * (z list -> z list)) list = [
   "segidx", run_segidx;
   "cpq", run_cpq;
   "rw", run_rw;
+  "simple", run_simple;
 ]
 
 let () =
